@@ -190,6 +190,9 @@ def api_calls(desc):
     calls = []
     for p in ancestors_of(x):
         calls.append(('assert_directory_verifies', (p,)))
+    # ... also when told that nothing older than the far future changed
+    calls.append(('assert_directory_verifies',
+                  ('', gem.throw, 4_000_000_000)))
     calls.append(('verify_path', (x,)))
     calls.append(('assert_path_verifies', (x,)))
     calls.append(('find_path_entry', (x,)))
@@ -254,7 +257,8 @@ def run_case(desc):
                 if weak in chain and oc.kind == 'return' and (
                         name != 'assert_directory_verifies'
                         or refverify_prefix(layout.dirname(weak), args[0])
-                        or refverify_prefix(args[0], layout.dirname(weak))):
+                        or refverify_prefix(args[0], layout.dirname(weak))) \
+                        and len(args) == 1:
                     val = oc.value
                     if name in ('find_path_entry', 'find_dist_entry'):
                         val = ekey(val)
